@@ -3,8 +3,9 @@
    Sections: sizes; the loop of EntryPart::split (bound, measure, merge-preservation, progress);
    split_to_parts (bounds, preservation, termination, acceptance/rejection); the writer loop
    (file sizes, shape of the parts, losslessness, u32 part number); top-level theorems about
-   write_split; the unrepaired loop (defect D6) and examples. *)
-From PNA Require Import Base Codec Split BaseFacts.
+   write_split; the unrepaired loop (defect D6) and examples; the reader chain on the parts
+   (merge and chunk-type predicates, unique decomposition into entries, read_parts). *)
+From PNA Require Import Base Codec Split BaseFacts CodecFacts.
 Require Import ZArith ZifyN ZifyNat ZifyBool.
 Open Scope N_scope.
 
@@ -872,3 +873,321 @@ Example split_cut_example :
 Proof. vm_compute. reflexivity. Qed.
 Example head_fits_example : head_fits 39 (hd [] d6_witness) = true.
 Proof. vm_compute. reflexivity. Qed.
+
+(* ---- chunk-type predicates and merge --------------------------------------------------------- *)
+Definition noterm (x : list chunk) : bool := forallb (fun c => negb (is_end c)) x.
+Definition is_mark (c : chunk) : bool := ty_is ANXT c || ty_is AEND c.
+Definition clean (x : list chunk) : bool := forallb (fun c => negb (is_mark c)) x.
+(* a raw entry as the reader produces it: chunks without FEND/SEND, then one of them *)
+Definition entry_ok (e : part) : Prop := exists a t, e = a ++ [t] /\ noterm a = true /\ is_end t = true.
+
+Lemma stream_ty_cases t : stream_ty t = true -> t = FDAT \/ t = SDAT.
+Proof. unfold stream_ty. intros H. apply orb_true_iff in H as [H|H]; apply bytes_eqb_eq in H; auto. Qed.
+
+Lemma stream_not_end c : is_stream c = true -> is_end c = false.
+Proof. destruct c as [t d]. rewrite is_stream_pair. intros H. apply stream_ty_cases in H as [->| ->]; reflexivity. Qed.
+
+Lemma stream_not_mark c : is_stream c = true -> is_mark c = false.
+Proof. destruct c as [t d]. rewrite is_stream_pair. intros H. apply stream_ty_cases in H as [->| ->]; reflexivity. Qed.
+
+Lemma end_not_stream c : is_end c = true -> is_stream c = false.
+Proof. intros H. destruct (is_stream c) eqn:E; [|reflexivity]. rewrite stream_not_end in H by exact E. discriminate. Qed.
+
+Section TypePredicate.
+  (* a predicate that looks at the chunk type only and is false on stream chunks *)
+  Variable P : chunk -> bool.
+  Hypothesis P_ty : forall t a b, P (t, a) = P (t, b).
+  Hypothesis P_stream : forall c, is_stream c = true -> P c = false.
+
+  Lemma P_same_ty c d : bytes_eqb (fst d) (fst c) = true -> P d = P c.
+  Proof. destruct c as [t a], d as [u b]. cbn [fst]. intros H. apply bytes_eqb_eq in H. subst u. apply P_ty. Qed.
+
+  Lemma merge_keeps_P x : forallb (fun c => negb (P c)) (merge x) = forallb (fun c => negb (P c)) x.
+  Proof.
+    induction x as [|c r IH]; [reflexivity|]. rewrite merge_cons. cbn [forallb].
+    destruct (is_stream c) eqn:Es.
+    - rewrite (P_stream c Es). cbn [negb andb]. destruct (snd c) as [|y d] eqn:Ed; [exact IH|].
+      rewrite <- IH. unfold fuse. destruct (merge r) as [|d0 r'].
+      + cbn [forallb]. rewrite (P_stream c Es). reflexivity.
+      + destruct (bytes_eqb (fst d0) (fst c)) eqn:E; cbn [forallb].
+        * rewrite (P_same_ty c d0 E).
+          replace (P (fst c, snd c ++ snd d0)) with (P c) by (destruct c; apply P_ty). reflexivity.
+        * rewrite (P_stream c Es). reflexivity.
+    - cbn [forallb]. rewrite IH. reflexivity.
+  Qed.
+End TypePredicate.
+
+Lemma is_end_ty t a b : is_end (t, a) = is_end (t, b).
+Proof. reflexivity. Qed.
+Lemma is_mark_ty t a b : is_mark (t, a) = is_mark (t, b).
+Proof. reflexivity. Qed.
+
+Lemma noterm_merge x : noterm (merge x) = noterm x.
+Proof. exact (merge_keeps_P is_end is_end_ty stream_not_end x). Qed.
+Lemma clean_merge x : clean (merge x) = clean x.
+Proof. exact (merge_keeps_P is_mark is_mark_ty stream_not_mark x). Qed.
+
+(* a non-stream chunk separates what merge can fuse *)
+Lemma fuse_app c l1 t l2 :
+  is_stream c = true -> is_stream t = false -> fuse c (l1 ++ t :: l2) = fuse c l1 ++ t :: l2.
+Proof.
+  intros Hc Ht. destruct l1 as [|d l1]; cbn [app fuse].
+  - destruct (bytes_eqb (fst t) (fst c)) eqn:E; [|reflexivity]. exfalso.
+    apply bytes_eqb_eq in E. unfold is_stream in *. rewrite E in Ht. congruence.
+  - destruct (bytes_eqb (fst d) (fst c)); reflexivity.
+Qed.
+
+Lemma merge_sep a t b : is_stream t = false -> merge (a ++ t :: b) = merge a ++ t :: merge b.
+Proof.
+  intros Ht. induction a as [|c a IH]; cbn [app].
+  - rewrite merge_cons, Ht. reflexivity.
+  - rewrite (merge_cons c (a ++ t :: b)), (merge_cons c a), IH.
+    destruct (is_stream c) eqn:Es; [|reflexivity].
+    destruct (snd c); [reflexivity|]. apply fuse_app; assumption.
+Qed.
+
+Lemma merge_entry a t : is_end t = true -> merge (a ++ [t]) = merge a ++ [t].
+Proof. intros H. rewrite merge_sep by (apply end_not_stream; exact H). reflexivity. Qed.
+
+Lemma entry_ok_merge e : entry_ok e -> entry_ok (merge e).
+Proof.
+  intros (a & t & -> & Ha & Ht). exists (merge a), t. rewrite merge_entry by exact Ht.
+  rewrite noterm_merge. auto.
+Qed.
+
+Lemma merge_entries es tail :
+  Forall entry_ok es -> merge (concat es ++ tail) = concat (map merge es) ++ merge tail.
+Proof.
+  induction 1 as [|e es (a & t & -> & Ha & Ht) _ IH]; [reflexivity|].
+  cbn [concat map]. rewrite merge_entry by exact Ht. rewrite <- !app_assoc. cbn [app].
+  rewrite merge_sep by (apply end_not_stream; exact Ht). rewrite IH. reflexivity.
+Qed.
+
+(* ---- a chunk sequence has one decomposition into terminated entries ---------------------------- *)
+Lemma noterm_app a b : noterm (a ++ b) = noterm a && noterm b.
+Proof. apply forallb_app. Qed.
+
+Lemma first_term_unique : forall a a' t t' r r',
+  noterm a = true -> noterm a' = true -> is_end t = true -> is_end t' = true ->
+  a ++ t :: r = a' ++ t' :: r' -> a = a' /\ t = t' /\ r = r'.
+Proof.
+  induction a as [|c a IH]; intros [|c' a'] t t' r r' Ha Ha' Ht Ht' H; cbn [app] in H.
+  - inversion H; auto.
+  - inversion H; subst. cbn [noterm forallb] in Ha'. rewrite Ht in Ha'. discriminate.
+  - inversion H; subst. cbn [noterm forallb] in Ha. rewrite Ht' in Ha. discriminate.
+  - inversion H; subst. cbn [noterm forallb] in Ha, Ha'.
+    apply andb_true_iff in Ha as [_ Ha]. apply andb_true_iff in Ha' as [_ Ha'].
+    destruct (IH a' t t' r r' Ha Ha' Ht Ht' H2) as (-> & -> & ->). auto.
+Qed.
+
+Lemma decomposition_unique : forall A B ca cb,
+  Forall entry_ok A -> Forall entry_ok B -> noterm ca = true -> noterm cb = true ->
+  concat A ++ ca = concat B ++ cb -> A = B /\ ca = cb.
+Proof.
+  induction A as [|e A IH]; intros B ca cb HA HB Ca Cb H.
+  - destruct B as [|e' B]; [cbn in H; auto|]. exfalso.
+    inversion HB as [|? ? (a & t & -> & _ & Ht) _]; subst.
+    cbn [concat app] in H. rewrite <- !app_assoc in H. subst ca.
+    rewrite noterm_app in Ca. cbn [app noterm forallb] in Ca. rewrite Ht in Ca.
+    cbn [negb andb] in Ca. rewrite andb_false_r in Ca. discriminate.
+  - inversion HA as [|? ? (a & t & -> & Ha & Ht) HA']; subst.
+    destruct B as [|e' B].
+    + exfalso. cbn [concat app] in H. rewrite <- !app_assoc in H. subst cb.
+      rewrite noterm_app in Cb. cbn [app noterm forallb] in Cb. rewrite Ht in Cb.
+      cbn [negb andb] in Cb. rewrite andb_false_r in Cb. discriminate.
+    + inversion HB as [|? ? (a' & t' & -> & Ha' & Ht') HB']; subst.
+      cbn [concat] in H. rewrite <- !app_assoc in H. cbn [app] in H.
+      destruct (first_term_unique _ _ _ _ _ _ Ha Ha' Ht Ht' H) as (-> & -> & H').
+      destruct (IH B ca cb HA' HB' Ca Cb H') as (-> & ->). auto.
+Qed.
+
+(* ---- scan ------------------------------------------------------------------------------------------ *)
+Lemma scan_spec : forall x buf, noterm buf = true ->
+  buf ++ x = concat (fst (scan buf x)) ++ snd (scan buf x) /\
+  Forall entry_ok (fst (scan buf x)) /\ noterm (snd (scan buf x)) = true.
+Proof.
+  induction x as [|c r IH]; intros buf Hb; cbn [scan].
+  - cbn [fst snd concat app]. rewrite app_nil_r. auto.
+  - destruct (is_end c) eqn:E.
+    + destruct (IH [] eq_refl) as (A & B & C). destruct (scan [] r) as [es b]. cbn [fst snd] in *.
+      repeat split; [|constructor; [exists buf, c; auto | exact B] | exact C].
+      cbn [concat]. rewrite <- !app_assoc. cbn [app]. rewrite <- A. reflexivity.
+    + assert (noterm (buf ++ [c]) = true) as Hb'.
+      { rewrite noterm_app, Hb. cbn [noterm forallb]. rewrite E. reflexivity. }
+      destruct (IH (buf ++ [c]) Hb') as (A & B & C). rewrite <- app_assoc in A. cbn [app] in A. auto.
+Qed.
+
+Lemma scan_app : forall a buf b,
+  scan buf (a ++ b) = (fst (scan buf a) ++ fst (scan (snd (scan buf a)) b), snd (scan (snd (scan buf a)) b)).
+Proof.
+  induction a as [|c a IH]; intros buf b; cbn [app scan].
+  - cbn [fst snd app]. destruct (scan buf b); reflexivity.
+  - destruct (is_end c).
+    + rewrite (IH [] b). destruct (scan [] a) as [es bb]. cbn [fst snd app]. reflexivity.
+    + apply IH.
+Qed.
+
+(* the entries a reader finds in a re-cut sequence are the original entries up to stream cuts *)
+Lemma recut_entries es flat :
+  Forall entry_ok es -> merge flat = merge (concat es) ->
+  map merge (fst (scan [] flat)) = map merge es.
+Proof.
+  intros Hes Hm. destruct (scan_spec flat [] eq_refl) as (A & B & C). cbn [app] in A.
+  pose proof (merge_entries _ (snd (scan [] flat)) B) as M1. rewrite <- A in M1.
+  pose proof (merge_entries es [] Hes) as M2. rewrite app_nil_r in M2. rewrite <- Hm, M1 in M2.
+  change (merge []) with (@nil chunk) in M2.
+  apply decomposition_unique in M2 as [E _]; [exact E | | | |reflexivity].
+  - apply Forall_map. eapply Forall_impl; [|exact B]. intros e. apply entry_ok_merge.
+  - apply Forall_map. eapply Forall_impl; [|exact Hes]. intros e. apply entry_ok_merge.
+  - rewrite noterm_merge. exact C.
+Qed.
+
+(* ---- the reader on well-formed parts ------------------------------------------------------------- *)
+Lemma read_body_scan : forall b buf next tl, clean b = true ->
+  read_body buf next (b ++ tl) =
+  match read_body (snd (scan buf b)) next tl with
+  | Ok (es, b', n) => Ok (fst (scan buf b) ++ es, b', n)
+  | Err k => Err k
+  | Panic => Panic
+  end.
+Proof.
+  induction b as [|c r IH]; intros buf next tl Hc; cbn [app scan].
+  - cbn [fst snd app]. destruct (read_body buf next tl) as [[[es b'] n]| |]; reflexivity.
+  - cbn [clean forallb] in Hc. apply andb_true_iff in Hc as [Hm Hr]. apply negb_true_iff in Hm.
+    unfold is_mark in Hm. apply orb_false_iff in Hm as [M1 M2].
+    cbn [read_body]. destruct (is_end c).
+    + rewrite (IH [] next tl Hr). destruct (scan [] r) as [es0 b0]. cbn [fst snd].
+      destruct (read_body b0 next tl) as [[[es b'] n]| |]; reflexivity.
+    + rewrite M1, M2. apply IH. exact Hr.
+Qed.
+
+Lemma read_body_nonlast b buf : clean b = true ->
+  read_body buf false (b ++ [anxt_chunk; aend_chunk]) = Ok (fst (scan buf b), snd (scan buf b), true).
+Proof.
+  intros H. rewrite read_body_scan by exact H.
+  change (read_body (snd (scan buf b)) false [anxt_chunk; aend_chunk])
+    with (Ok (@nil part, snd (scan buf b), true)).
+  cbv beta iota. rewrite app_nil_r. reflexivity.
+Qed.
+
+Lemma read_body_last b buf : clean b = true ->
+  read_body buf false (b ++ [aend_chunk]) = Ok (fst (scan buf b), snd (scan buf b), false).
+Proof.
+  intros H. rewrite read_body_scan by exact H.
+  change (read_body (snd (scan buf b)) false [aend_chunk])
+    with (Ok (@nil part, snd (scan buf b), false)).
+  cbv beta iota. rewrite app_nil_r. reflexivity.
+Qed.
+
+Lemma read_ahed n body : n < 2 ^ 32 -> read_part_header (ahed_chunk n :: body) = Ok (n, body).
+Proof.
+  intros H. unfold read_part_header, ahed_chunk. cbn [ty_is fst snd].
+  change (bytes_eqb AHED AHED) with true. cbv iota.
+  rewrite ahed_inv by (unfold wf_ahed; cbn [a_major a_minor a_number]; lia). reflexivity.
+Qed.
+
+Lemma read_chain_assemble : forall bodies n prev buf lastb,
+  Forall (fun b => clean b = true) bodies -> clean lastb = true -> n + len bodies < 2 ^ 32 ->
+  (prev = None \/ (prev = Some (n - 1) /\ 0 < n)) ->
+  read_chain prev buf (assemble_nonlast n bodies ++ [ahed_chunk (n + len bodies) :: lastb ++ [aend_chunk]]) =
+  Ok (fst (scan buf (concat bodies ++ lastb))).
+Proof.
+  induction bodies as [|b r IH]; intros n prev buf lastb Hb Hl Hn Hp.
+  - cbn [assemble_nonlast app concat read_chain]. unfold len in *; cbn [length] in *. rewrite N.add_0_r in *.
+    rewrite read_ahed by exact Hn.
+    assert ((match prev with None => true | Some p => N.eqb (p + 1) n end) = true) as ->.
+    { destruct Hp as [->|[-> Hp]]; [reflexivity|]. apply N.eqb_eq. lia. }
+    rewrite read_body_last by exact Hl. reflexivity.
+  - inversion Hb as [|? ? Hb1 Hb2]; subst. rewrite len_cons in Hn.
+    cbn [assemble_nonlast app concat read_chain].
+    rewrite read_ahed by lia.
+    assert ((match prev with None => true | Some p => N.eqb (p + 1) n end) = true) as ->.
+    { destruct Hp as [->|[-> Hp]]; [reflexivity|]. apply N.eqb_eq. lia. }
+    rewrite read_body_nonlast by exact Hb1.
+    rewrite len_cons. replace (n + (1 + len r)) with (n + 1 + len r) by lia.
+    rewrite (IH (n + 1) (Some n) (snd (scan buf b)) lastb Hb2 Hl);
+      [| lia | right; split; [f_equal; lia | lia]].
+    rewrite <- app_assoc, (scan_app b buf (concat r ++ lastb)). cbn [fst]. reflexivity.
+Qed.
+
+(* ---- the part number stays a u32 ---------------------------------------------------------------- *)
+Lemma add_piece_num B st p st' :
+  add_piece B st p = Ok st' -> ws_num st <= U32_MAX -> ws_num st' <= U32_MAX.
+Proof.
+  unfold add_piece. destruct (N.ltb B (ws_written st + bytes_len p)).
+  - destruct (N.ltb U32_MAX (ws_num st + 1)) eqn:E; [discriminate|]. apply N.ltb_ge in E.
+    intros H _; inversion H; subst; cbn [ws_num]. exact E.
+  - intros H Hn; inversion H; subst; cbn [ws_num]. exact Hn.
+Qed.
+
+Lemma add_pieces_num B : forall ps st st',
+  add_pieces B st ps = Ok st' -> ws_num st <= U32_MAX -> ws_num st' <= U32_MAX.
+Proof.
+  induction ps as [|p ps IH]; intros st st' H Hn; cbn [add_pieces] in H.
+  - inversion H; subst. exact Hn.
+  - destruct (add_piece B st p) as [st1| |] eqn:E; cbn [bind] in H; try discriminate.
+    eapply IH; [exact H|]. eapply add_piece_num; eauto.
+Qed.
+
+Lemma we_num B fuel : forall es st st',
+  write_entries_fuel fuel B st es = Fin (Ok st') -> ws_num st <= U32_MAX -> ws_num st' <= U32_MAX.
+Proof.
+  induction es as [|e r IH]; intros st st' H Hn; cbn [write_entries_fuel] in H.
+  - inversion H; subst. exact Hn.
+  - destruct (N.ltb B (ws_written st)); [discriminate|].
+    destruct (split_to_parts_fuel fuel e (B - ws_written st) B) as [[ps| |]|]; try discriminate.
+    destruct (add_pieces B st ps) as [st1| |] eqn:A; try discriminate.
+    eapply IH; [exact H|]. eapply add_pieces_num; eauto.
+Qed.
+
+Lemma clean_app a b : clean (a ++ b) = clean a && clean b.
+Proof. apply forallb_app. Qed.
+
+Lemma clean_concat l : clean (concat l) = true -> Forall (fun b => clean b = true) l.
+Proof.
+  induction l as [|b l IH]; cbn [concat]; [constructor|].
+  rewrite clean_app. intros H. apply andb_true_iff in H as [H1 H2]. constructor; auto.
+Qed.
+
+(* Reading the parts in sequence (reader chain: buffer carried over, numbers checked) finds
+   exactly the original entries, each up to where its stream chunks are cut. *)
+Theorem parts_read_back max es parts :
+  write_split max es = Ok parts -> Forall entry_ok es -> clean (concat es) = true ->
+  exists es', read_parts parts = Ok es' /\ map merge es' = map merge es.
+Proof.
+  intros H Hes Hc. apply write_split_ok_inv in H as (Hm & st & W & ->).
+  destruct (we_shape _ _ es _ _ [] init_shape W) as (y & (bodies & S1 & S2 & S3) & My).
+  assert (ws_num st <= U32_MAX) as Hn.
+  { eapply we_num; [exact W|]. cbn [init_wstate ws_num]. unfold U32_MAX. lia. }
+  cbn [app] in S3. specialize (My []). rewrite !app_nil_r in My. subst y.
+  assert (clean (concat bodies ++ ws_cur st) = true) as Hcl.
+  { rewrite <- clean_merge, My, clean_merge. exact Hc. }
+  exists (fst (scan [] (concat bodies ++ ws_cur st))). split.
+  - unfold read_parts, close_part. rewrite S1, S2.
+    rewrite clean_app in Hcl. apply andb_true_iff in Hcl as [C1 C2].
+    replace (ahed_chunk (len bodies)) with (ahed_chunk (0 + len bodies)) by (rewrite N.add_0_l; reflexivity).
+    apply read_chain_assemble; [apply clean_concat; exact C1 | exact C2 | | left; reflexivity].
+    rewrite N.add_0_l, <- S2. change (2 ^ 32) with 4294967296. unfold U32_MAX in Hn. lia.
+  - apply recut_entries; assumption.
+Qed.
+
+Example read_back_example :
+  exists parts, write_split 78 d6_witness = Ok parts /\ read_parts parts = Ok d6_witness.
+Proof. eexists. split; vm_compute; reflexivity. Qed.
+Example read_back_cut_example :
+  exists parts es', write_split 91 d6_witness = Ok parts /\ read_parts parts = Ok es' /\
+                    es' <> d6_witness /\ map merge es' = map merge d6_witness.
+Proof. do 2 eexists. repeat split; try (vm_compute; reflexivity). vm_compute. discriminate. Qed.
+
+(* ---- finding F-C04-foreign-stream: "up to stream cuts" is visible for a stream-typed chunk that
+   is foreign to its entry (SDAT inside FHED..FEND, FDAT inside SHED..SEND): the splitter cuts by
+   chunk type alone, the entry parser hands such a chunk out unchanged as an extra chunk ------------- *)
+Definition foreign_witness : list part :=
+  [[(lit "FHED", [x00; x00; x00; x00; x00; x00; x61]);
+    (SDAT, [x01; x02; x03; x04; x05; x06; x07; x08]); (lit "FEND", [])]].
+
+Lemma foreign_stream_chunk_recut_refuted :
+  exists parts es', write_split 71 foreign_witness = Ok parts /\ read_parts parts = Ok es' /\
+    map (filter (ty_is SDAT)) es' <> map (filter (ty_is SDAT)) foreign_witness /\
+    map merge es' = map merge foreign_witness.
+Proof. do 2 eexists. repeat split; try (vm_compute; reflexivity). vm_compute. discriminate. Qed.
